@@ -95,16 +95,21 @@ let body lines =
              | RPtr p -> print_ptr p; Hashtbl.replace slots (int_of_string sl) p
              | _ -> print_ptr N0; Hashtbl.replace slots (int_of_string sl) N0)
           | ["churn"; k; cnt] ->
-            (* <cnt> allocate/free pairs: iterate the model quietly *)
-            let cnt = Int64.to_int (Int64.of_string cnt) in
-            let cnt = if cnt > 5000000 then 0 else cnt in   (* TEMPORARY until the churn shortcut of the model is installed *)
+            (* <cnt> allocate/free pairs.  As soon as the class has a partial slab the remaining pairs are the model's
+               [churn_fast] (SlabChurn.v: equal to iterating Alloc;Free any number of times); before that (first pair
+               of a class without partial slab, large sizes) the pairs are iterated. *)
+            let cnt = ref (Int64.to_int (Int64.of_string cnt)) in
             quiet := true;
             (try
-              for _ = 1 to cnt do
-                let (o, commit) = env_for (fun e -> Alloc (n_of_string k, e)) "ok" in
-                (match exec o commit with
-                 | RPtr p -> ignore (exec (Free p) (fun () -> ()))
-                 | _ -> ())
+              while !cnt > 0 do
+                match churn_class c !s (n_of_string k) with
+                | Some idx -> s := churn_fast !s idx; cnt := 0
+                | None ->
+                  let (o, commit) = env_for (fun e -> Alloc (n_of_string k, e)) "ok" in
+                  (match exec o commit with
+                   | RPtr p -> ignore (exec (Free p) (fun () -> ()))
+                   | _ -> ());
+                  decr cnt
               done
             with Stop -> quiet := false; raise Stop);
             quiet := false;
